@@ -169,10 +169,10 @@ def stage(chk, tier, seed, rnd, bdir, work):
     if rej != 4 and not drift:
         raise ModelError("pass model: %d of 4 tampered passes rejected" % rej)
     # ---- design level: every order of the work set on the smallest cases
-    small = [r for r in rows if r["integral"] and r["pass"] == 0 and r["pre"]["nslots"] <= 6 and 1 <= r["it"] <= (3 if tier == "quick" else 4)
+    small = [r for r in rows if r["integral"] and r["pass"] == 0 and r["pre"]["nslots"] <= 6 and 1 <= r["it"] <= 3
              and verdicts[r["id"]][0] and r["outcome"] == "done"]
     small.sort(key=lambda r: (-sum(1 for o in r["ops"] if o["op"] == "split"), r["id"]))
-    pick = small[:6 if tier == "quick" else 24]
+    pick = small[:6 if tier == "quick" else 16]      # (passes of four operations in every order already take TLC an hour)
     if len(pick) < 3:
         raise ModelError("vacuous: %d small passes for the exploration of all orders" % len(pick))
     spath = os.path.join(work, "rp-small.ndjson")
